@@ -266,6 +266,18 @@ def rule_cb_flush_output_conservation(ctx, cfg, r):
         r.fail(g.name, "direct-row-missing", "no row of new_output_buffer selects the caller's buffer")
 
 
+_fb = {}
+
+
+def _fb_rows(ctx, cfg):
+    """rows of flush_block with the bit writer's save() evaluated inline"""
+    if cfg not in _fb:
+        c = ctx.crate(cfg)
+        f = c.fn("deflate::core::flush_block")
+        _fb[cfg] = paths.Evaluator(c, effects=ctx.effects(cfg), max_paths=20000, inline=["OutputBufferOxide::save"]).run(f)
+    return _fb[cfg]
+
+
 def rule_bit_carry(ctx, cfg, r):
     """R02.8: bit buffer state is carried between blocks through params.saved_bit_buffer / saved_bits_in."""
     c = ctx.crate(cfg)
@@ -275,7 +287,7 @@ def rule_bit_carry(ctx, cfg, r):
     writers = ("OutputBufferOxide::put_bits", "OutputBufferOxide::put_bits_no_flush", "OutputBufferOxide::pad_to_bytes",
                "OutputBufferOxide::write_bytes", "deflate::core::compress_block", "OutputBufferOxide::save",
                "OutputBufferOxide::load", "OutputBufferOxide::is_byte_aligned")
-    wsites = call_sites(f, *writers)
+    wsites = call_sites(f, *writers) + call_sites(f, "deflate::core::compress_lz_codes", "HuffmanOxide::start_static_block", "HuffmanOxide::start_dynamic_block")
     for fieldname, saved in (("bit_buffer", "saved_bit_buffer"), ("bits_in", "saved_bits_in")):
         # initialisation: output.<field> = d.params.<saved> dominates every writer call
         inits = []
@@ -292,39 +304,34 @@ def rule_bit_carry(ctx, cfg, r):
                 r.fail(f.name, "init-" + fieldname, "a bit-writing call is not dominated by the initialisation of output.%s" % fieldname, bad[0])
             else:
                 r.ok(f.name, "init-" + fieldname, "output.%s = params.%s dominates all %d writer calls" % (fieldname, saved, len(wsites)))
-        # write-back: params.<saved> = save().<field> on every path to the Ok return, after the last writer
-        sts = stores_to(E, f, "ParamsOxide", saved)
-        okret = [bb for bb, blk in enumerate(f.blocks) for s in blk["s"]
-                 if "a" in s and s["a"][0]["l"] == 0 and not s["a"][0]["p"] and "agg" in s["a"][1] and
-                 s["a"][1]["agg"].get("variant") == "Ok"]
-        if not sts or not okret:
+        # write-back: on every path to the Ok return params.<saved> ends up holding the FINAL value of output.<field> (taken after the
+        # last bit-writing call) — through save(), a struct literal or a direct copy alike
+        n_ok = 0
+        bad = None
+        for x in _fb_rows(ctx, cfg):
+            if x.outcome[0] != "return" or not (x.ret and x.ret[0] == "agg" and x.ret[2] == "Ok"):
+                continue
+            n_ok += 1
+            sv = [v for k, v in x.store.items() if isinstance(k, tuple) and k and k[0] == "fld" and k[2] == saved and k[3].endswith("ParamsOxide")]
+            if not sv:
+                sts_ = store_to_field(x, saved, "ParamsOxide")
+                sv = [sts_[-1][2]] if sts_ else []
+            outs = {k[1] for k in x.store if isinstance(k, tuple) and k and k[0] == "fld" and k[2] == fieldname and k[3].endswith("OutputBufferOxide")}
+            for v in sv:
+                for q in paths.subterms(v):
+                    if q[0] == "load" and q[1][0] == "fld" and q[1][2] == fieldname and q[1][3].endswith("OutputBufferOxide"):
+                        outs.add(q[1][1])
+            ty = c.adt("deflate::core::OutputBufferOxide")["path"]
+            if not sv or not any(sv[-1] == paths.final_value(x, ("fld", o, fieldname, ty)) for o in outs):
+                bad = (x, sv[-1] if sv else None)
+        if n_ok and bad is None:
+            r.ok(f.name, "save-" + saved, "params.%s holds the final output.%s on every path to the Ok return (%d paths)" % (saved, fieldname, n_ok))
+        elif not n_ok:
             r.fail(f.name, "save-" + saved, "params.%s is never saved / no Ok return found" % saved)
-            continue
-        good = True
-        why = ""
-        for rb in okret:
-            if not any(f.dominates(sb, rb) for sb, _, _ in sts):
-                good, why = False, "an Ok return is not dominated by the store to params.%s" % saved
-        # no bit-writing call may be reachable between the last store and the Ok return
-        for sb, si, s in sts:
-            reach = f.reachable(sb) - {sb}
-            late = [t.get("sp") for bb, t in wsites if bb in reach and any(bb in f.reachable(0) and f.dominates(sb, bb) for _ in [0])
-                    and callee_name(t["call"]).split("::")[-1] not in ("save",)]
-            if late:
-                good, why = False, "bits are written after params.%s was saved (%s)" % (saved, late[0])
-        # the stored value derives from OutputBufferOxide::save()
-        for sb, si, s in sts:
-            rv = s["a"][1]
-            src = writeback.operand_place(rv["use"]) if "use" in rv else None
-            okv = False
-            if src is not None:
-                okv = _from_calls(f, src.local, "OutputBufferOxide::save")
-            if not okv:
-                good, why = False, "params.%s is not assigned from output.save()" % saved
-        if good:
-            r.ok(f.name, "save-" + saved, "params.%s = output.save().%s dominates the Ok return; no bits written afterwards" % (saved, fieldname))
         else:
-            r.fail(f.name, "save-" + saved, why)
+            r.fail(f.name, "save-" + saved, "params.%s is not left holding the final value of output.%s on a path to the Ok return (it holds %s): bits "
+                   "written to the block after that point are lost, or the next block starts from stale bits"
+                   % (saved, fieldname, tstr(bad[1])[:80] if bad[1] is not None else "nothing new"), where=first_span(bad[0]), path=row_path(bad[0], 6))
 
 
 def _from_calls(fn, local, suffix, depth=0):
